@@ -1,6 +1,6 @@
 (** C19: @skip/@include behave as textual deletion.  Statements only; proofs are in Gql/Proofs*.v. *)
 From Coq Require Import List String Bool.
-From Thunder Require Import Lib.Json Gql.Types Gql.Value Gql.Query Gql.Ref Gql.Exec Gql.ProofsDirective.
+From Thunder Require Import Lib.Json Gql.Types Gql.Value Gql.Query Gql.Ref Gql.Exec Gql.ProofsDirective Gql.Witness Gql.ProofsWitness.
 Import ListNotations.
 Open Scope string_scope.
 
@@ -17,6 +17,30 @@ Theorem node_included_original_refuted :
   exists vs ds, dirs_wf vs ds = true /\ should_include original (parse_dirs vs ds) <> Ok (allowed vs ds).
 Proof. exact should_include_original_refuted. Qed.
 Print Assumptions node_included_original_refuted.
+
+(** The code before the repairs, as a model variant ([original]), breaks "annotated = pruned" under an
+    object parent with two selections of one alias (F9), under a union parent (F8), and through a
+    decorated spread of a shared fragment (F7); each witness is replayed on the real code by
+    corpus/C19/f9-*.json, f8-*.json, f7-*.json. *)
+Theorem prune_equivalence_original_refuted_same_alias :
+  exists S vs q root, directives_wellformed vs q = true /\
+    norm_result (exec_fifo original S vs q root) <> norm_result (exec_fifo original S vs (prune vs q) root).
+Proof. exists w_schema, [], w_f9, w_root. exact f9_witness. Qed.
+Print Assumptions prune_equivalence_original_refuted_same_alias.
+
+Theorem prune_equivalence_original_refuted_union_parent :
+  exists S vs q root, directives_wellformed vs q = true /\
+    norm_result (exec_fifo original S vs q root) <> norm_result (exec_fifo original S vs (prune vs q) root).
+Proof. exists w_schema, [], w_f8, w_root. exact f8_witness. Qed.
+Print Assumptions prune_equivalence_original_refuted_union_parent.
+
+(** Spread independence on the original code: negating the condition of the spread under "a" changes
+    what the other spread of the same fragment returns under "b"; not so on the repaired model. *)
+Theorem spread_independence_original_refuted :
+  result_field "b" (exec_fifo original w_schema [] w_f7 w_root) <> result_field "b" (exec_fifo original w_schema [] w_f7' w_root)
+  /\ result_field "b" (exec_fifo fixed w_schema [] w_f7 w_root) = result_field "b" (exec_fifo fixed w_schema [] w_f7' w_root).
+Proof. exact f7_independence_witness. Qed.
+Print Assumptions spread_independence_original_refuted.
 
 Example hypotheses_satisfiable :
   dirs_wf [("v", JBool true)] [SDir "include" (CVar "v"); SDir "skip" (CLit (JBool false))] = true.
